@@ -14,7 +14,7 @@ import io
 import itertools
 
 PROP = 'C16'
-TARGETS = ['T16a', 'T16b', 'T16c', 'T16d']
+TARGETS = ['T16a', 'T16b', 'T16c', 'T16d', 'T16e', 'T16f']
 LEAN_MODULES = ['HdVerif.Props.C16']
 MODEL_MODULES = ['HdVerif.Model.SRReport']
 NAMESPACE = 'HdVerif.C16'
@@ -205,6 +205,28 @@ def _filter_values(r, groups, pool, method=None):
     return pick
 
 
+def _pools(groups, pool):
+    """the whole (small) value pool of every filter: single-filter sweeps try every value"""
+    from gen import srreports
+    refs = []
+    for g in groups:
+        for x in srreports.referenced_instances(g):
+            if x not in refs:
+                refs.append(x)
+    lats = [tuple(x) for g in groups for x in g.get('lateralities', []) if x]
+    return {
+        'tracking_uid': sorted({g['tracking_uid'] for g in groups}) + [pool['base'] + '.9.99'],
+        'finding_type': list(srreports.FINDINGS),
+        'finding_site': list(srreports.SITES) + sorted(set(lats) - set(srreports.SITES)),
+        'reference_type': ['ImageRegion', 'ReferencedSegmentationFrame', 'ReferencedSegment', 'VolumeSurface', 'RegionInSpace',
+                           'SourceImageForSegmentation'],
+        'graphic_type': [(2, x) for x in srreports.G2D + ['MULTIPOINT']] +
+                        [(3, x) for x in ['POINT', 'POLYGON', 'ELLIPSE', 'ELLIPSOID', 'POLYLINE', 'MULTIPOINT']],
+        'referenced_sop_instance_uid': [i for _, i in refs] + [pool['base'] + '.1.99'],
+        'referenced_sop_class_uid': [srreports.CT, srreports.MR, srreports.SEG, srreports.RTSS],
+    }
+
+
 def _to_args(f):
     """filter dict -> keyword arguments of the real method"""
     import highdicom as hd
@@ -225,8 +247,14 @@ def _to_args(f):
     return kw
 
 
-def _combos(r, method, values, exhaustive):
+def _combos(r, method, values, exhaustive, pools=None):
     names = FILTERS[method]
+    if pools is not None:
+        # every value of every single filter (a filter must also be right for the values nobody thought of)
+        for n in names:
+            for v in pools[n]:
+                if v != values[n]:
+                    yield {m: (v if m == n else None) for m in names}
     if exhaustive:
         for mask in range(2 ** len(names)):
             yield {n: (values[n] if mask >> i & 1 else None) for i, n in enumerate(names)}
@@ -409,11 +437,11 @@ def _check_report(ctx, c, reqs, pending, only=None, spec_reqs=None, spec_pending
         ctx.fail(base_case, f'report cannot be written and parsed back: {rd[2]}', site='srread')
     model_groups = [_model_params(g) for g in groups]
     _check_layout(ctx, c, reqs, pending)
-    exhaustive = n <= 2 and c['idx'] % 3 == 0
+    exhaustive = n <= 2 and c['idx'] % 5 == 0
     for method in ('planar', 'volumetric', 'image'):
         n_kind = sum(1 for g in groups if g['kind'] == method)
         values = _filter_values(r, groups, c['pool'], method)
-        for f in _combos(r, method, values, exhaustive):
+        for f in _combos(r, method, values, exhaustive, pools=_pools(groups, c['pool'])):
             if only is not None and (method, f) != only:
                 continue
             why, must, may = expected(groups, method, f)
@@ -583,6 +611,89 @@ def _compare(ctx, pending, answers):
                 ctx.disagree('L0', case, impl, ('ok', want), 'query: groups returned')
 
 
+SHAPES = [('planar', t, tpl) for t in ('region2d', 'region3d', 'segframe', 'region_in_space') for tpl in (True, False)] + \
+         [('volumetric', t, tpl) for t in ('regions2d', 'segment', 'surface', 'region_in_space') for tpl in (True, False)] + \
+         [('volumetric', 'regions2d-1', True), ('image', 'images', True), ('image', 'images', False)]
+
+
+def _shape_group(r, pool, idx, shape):
+    """a group of the given (kind, reference type, template?) shape; everything else random"""
+    from gen import srreports
+    kind, t, tpl = shape
+    for _ in range(200):
+        g = srreports.group_params(r, pool, idx, kinds=(kind,))
+        g['template'] = tpl
+        want = 'regions2d' if t == 'regions2d-1' else t
+        if g['ref']['type'] != want:
+            continue
+        if t == 'regions2d-1':
+            g['ref']['regions'] = g['ref']['regions'][:1]
+        elif t == 'regions2d' and len(g['ref']['regions']) < 2:
+            continue
+        g['tracking_uid'] = f'{pool["base"]}.9.{idx}'
+        return g
+    raise RuntimeError(f'could not draw a group of shape {shape}')
+
+
+def _shapes(ctx, reqs, pending, spec_reqs, spec_pending, only_idx=None):
+    """Every ORDERED PAIR of group shapes (kind x reference type x with/without template identification) and random
+    triples, queried without filters and with a graphic-type sweep: kind classification must not depend on what came
+    before in the document (state carried across loop iterations)."""
+    from gen import srreports
+    from pydicom.sr.codedict import codes
+    import highdicom as hd
+    pairs = [(a, b) for a in SHAPES for b in SHAPES]
+    n_tri = ctx.n(60, 1500)
+    idxs = range(len(pairs) + n_tri) if only_idx is None else [only_idx]
+    for idx in idxs:
+        r = ctx.rng('shapes', idx)
+        shapes = list(pairs[idx]) if idx < len(pairs) else [r.choice(SHAPES) for _ in range(3)]
+        pool = srreports.instance_pool(r)
+        res = _call(lambda: [_shape_group(r, pool, k + 1, sh) for k, sh in enumerate(shapes)])
+        if res[0] != 'ok':
+            ctx.note(f'shapes {idx}: {res[2]}')
+            continue
+        groups = res[1]
+        oc = hd.sr.ObservationContext(observer_person_context=hd.sr.ObserverContext(
+            observer_type=codes.DCM.Person, observer_identifying_attributes=hd.sr.PersonObserverIdentifyingAttributes(name='Doe^Jane')))
+        res = _call(lambda: hd.sr.MeasurementReport(observation_context=oc, procedure_reported=codes.LN.CTUnspecifiedBodyRegion,
+                                                    imaging_measurements=[srreports.build_group(r, g) for g in groups]))
+        case0 = {'stream': 'shapes', 'seed': ctx.seed, 'idx': idx, 'shapes': [list(s_) for s_ in shapes]}
+        if res[0] != 'ok':
+            ctx.fail(case0, f'report of admissible groups not constructed: {res[2]}', site='report/construct')
+            continue
+        rep = res[1]
+        model_groups = [_model_params(g) for g in groups]
+        uids = [g['tracking_uid'] for g in groups]
+        for method in ('planar', 'volumetric', 'image'):
+            fl = [{n: None for n in FILTERS[method]}]
+            if method != 'image' and idx % 4 == 0:
+                fl += [dict(fl[0], graphic_type=gt) for gt in _pools(groups, pool)['graphic_type']]
+            for f in fl:
+                why, must, may = expected(groups, method, f)
+                res = _call(getattr(rep, METHODS[method]), **_to_args(f))
+                case = dict(case0, method=method, filters={k: v for k, v in f.items() if v is not None})
+                ok = res[0] == 'ok'
+                ctx.case(path='shapes', method=method, outcome=('ok' if ok else res[2].split(':')[0]),
+                         nontrivial_key=('shapes', tuple(shapes), method, f.get('graphic_type')))
+                reqs.append(('query', {'method': method, 'groups': model_groups,
+                                       'filters': {k: (list(v) if isinstance(v, tuple) else v) for k, v in f.items()}}))
+                got = [uids.index(_tracking(s_)) for s_ in res[1]] if ok else None
+                pending.append((case, ('ok', [uids[k] for k in got]) if ok else ('err', res[1]), groups, 'query'))
+                spec_reqs.append(('spec', reqs[-1][1]))
+                spec_pending.append((dict(case, what='spec'), why, must, may))
+                if why:
+                    if ok:
+                        ctx.fail(case, f'filter combination accepted although it cannot apply: {why}', site=f'{method}/refusal')
+                    continue
+                if not ok:
+                    ctx.fail(case, f'applicable query refused: {res[2]}', site=f'{method}/accept')
+                elif got != sorted(set(got)) or not (set(must) <= set(got) <= set(may)):
+                    ctx.fail(case, {'what': 'query result is not exactly the groups of that kind satisfying every filter, in document order',
+                                    'got': got, 'must': must, 'may': may}, site=f'{method}/result')
+    ctx.exhaustive.append(f'all {len(pairs)} ordered pairs of {len(SHAPES)} group shapes (kind x reference type x template id), three unfiltered queries each')
+
+
 def _third_party(ctx, reqs3, pending3, only_idx=None):
     """Containers as a third party might write them (and as nobody should): items reordered, reference items duplicated, a
     second reference of another type added, the reference removed or given another relationship, template ids stripped.
@@ -691,13 +802,14 @@ def run(ctx):
     reqs2, pending2 = [], []
     spec_reqs, spec_pending = [], []
     _helpers(ctx, reqs2, pending2)
-    for idx in range(ctx.n(30, 450)):
+    for idx in range(ctx.n(22, 400)):
         res = _call(_report_case, ctx, idx)
         if res[0] != 'ok':
             ctx.fail({'stream': 'report', 'seed': ctx.seed, 'idx': idx}, f'a valid report could not be constructed: {res[2]}',
                      site='report/construct')
             continue
         _check_report(ctx, res[1], reqs, pending, spec_reqs=spec_reqs, spec_pending=spec_pending)
+    _shapes(ctx, reqs, pending, spec_reqs, spec_pending)
     reqs3, pending3 = [], []
     _third_party(ctx, reqs3, pending3)
     answers = ctx.model(reqs + reqs2 + spec_reqs + reqs3)
@@ -746,5 +858,7 @@ def replay(ctx, case):
         _helpers(sub, [], [])
     elif case.get('stream') == 'thirdparty':
         _third_party(sub, [], [], only_idx=case['idx'])
+    elif case.get('stream') == 'shapes':
+        _shapes(sub, [], [], [], [], only_idx=case['idx'])
     fl = [f for f in sub.failures if all(f['case'].get(k) == case.get(k) for k in ('method', 'path') if k in case)]
     return (fl or sub.failures)[:3] or None
